@@ -345,6 +345,8 @@ def run(pid, tier, seed, do_replay=None):
                 lines.append("VIOLATION property=%s replay=%s obligation=%s" % (pid, path, sorted(names)[0]))
                 n_viol = sum(1 for ln in lines if ln.startswith("VIOLATION"))
                 doubtful = [o for o in doubtful if (o.meta or {}).get("function") != q]
+    # obligations that are listed open findings are reported as such; they do not ask for a replay of their own
+    doubtful = [ob for ob in doubtful if not (hasattr(ob, "where") and finding_for(pid, ob, findings))]
     unsupported_fns = [q for q, rep in ctx.reports.items() if rep.unsupported]
     if not doubtful and getattr(ctx, "unsupported_lemmas", None) and plan.oracles:
         # a composed run (lemma over the real code) left the modelled subset: undecided by proof; the oracle may still
@@ -368,8 +370,6 @@ def run(pid, tier, seed, do_replay=None):
             u.name, u.verdict, u.reason = "outside-modelled-subset:" + q.split("::")[1], "undecided", \
                 "; ".join(ctx.reports[q].unsupported)[:200]
             doubtful.append(u)
-    # obligations that are listed open findings are reported as such; they do not ask for a replay of their own
-    doubtful = [ob for ob in doubtful if not (hasattr(ob, "where") and finding_for(pid, ob, findings))]
     if doubtful and plan.oracles:
         for script in plan.oracles:
             path, reproduced, out = replay.run_oracle(pid, script, doubtful)
